@@ -122,6 +122,36 @@ def check_equivalence(repo, rep, tier):
     rep.floor(rid, 1500)
 
 
+def check_fast_orders_and_gaps(repo, rep, tier):
+    rid = "C12-R4b"
+    rep.rule(rid, "a gap inside a chunk: /repo's _simulate_new_candles on a two-minute chunk whose second candle opens away from the "
+                  "previous close and the normal per-minute protocol (_get_fixed_jumped_candle, then _simulate_price_change_effect) are "
+                  "both executed abstractly with one and two resting orders for every weak ordering of (previous close, o2, c2, h2, "
+                  "l2, p[, r]): same fills in the same order, at the same prices and simulated times")
+    from props import fastgap
+    n = 0
+    for desc, s, res in fastgap.run_all(repo, tier):
+        n += 1
+        if res["normal"] != res["fast"]:
+            rep.violation(rid, "gap-in-chunk|fills", f"normal and fast simulator disagree on a chunk with a gap inside for {desc}: normal {res['normal']} vs fast {res['fast']}", {"ordering": desc})
+        rep.instance(rid, desc, {"ordering": desc, "normal": repr(res["normal"]), "fast": repr(res["fast"])} if n % 300 == 1 else None)
+    rep.floor(rid, 500)
+    rid = "C12-R4c"
+    rep.rule(rid, "several touched orders in one minute: the fast chunk matcher on a one-candle chunk fills two / three resting orders and a "
+                  "reaction order in the order of the continuous price path (which the normal matcher follows: C08-R2), for every weak "
+                  "ordering and both storage orders")
+    from props import matchloop
+    n = 0
+    for desc, viols, sample in matchloop.run_all(repo, tier, fast=True):
+        n += 1
+        for r, key, msg in viols:
+            kind = key.split("|")[1]
+            if kind in ("order", "unfilled", "spurious"):
+                rep.violation(rid, f"fast-one-candle|{kind}", "fast simulator, one-candle chunk (the normal simulator follows the path): " + msg, {"ordering": desc})
+        rep.instance(rid, desc, sample if n % 500 == 1 else None)
+    rep.floor(rid, 1500)
+
+
 def check_chunk_step(repo, rep, rid="C12-R3", need="gcd-of-all"):
     """need = 'gcd-of-all': the step must equal the gcd of all route timeframes (C07/C12: one stored candle per route and chunk);
     need = 'divides-trading': the step must divide every trading-route timeframe (C01: no chunk straddles a trading-candle boundary)"""
@@ -160,6 +190,8 @@ def check_chunk_step(repo, rep, rid="C12-R3", need="gcd-of-all"):
             for t in rs:
                 want = math.gcd(want, tf[t])
             v = out.value
+            if isinstance(v, Unknown):
+                raise AnalysisError(f"_calculate_minimum_candle_step is outside the interpreted fragment for routes {rs}: {v!r}")
             isint = out.kind == "return" and isinstance(v, R) and v.is_const() and v.const_value().denominator == 1 and v.const_value() >= 1
             if need == "gcd-of-all":
                 if not (isint and v.const_value() == want):
@@ -306,6 +338,7 @@ def run(repo: Repo, rep, tier: str):
     rep.guarded(check_structure, repo, rep)
     rep.guarded(check_fast_time, repo, rep)
     rep.guarded(check_equivalence, repo, rep, tier)
+    rep.guarded(check_fast_orders_and_gaps, repo, rep, tier)
     rep.undecided_item("equality of whole-session outputs (trades, balances) of the two simulators for arbitrary strategies - decided per span and structurally")
     rep.undecided_item("spans longer than two minutes / more than one fill per span (outside the property's precondition)")
 
